@@ -62,6 +62,9 @@ Qed.
 Section Extract.
   Variables (s : schema) (R : typeref -> Prop).
   Hypothesis Hok : schema_ok s R.
+  (* every list reached is associative or atomic: the members of any other granular list
+     all get the zero path element (Model/Walk.v) and the laws below fail *)
+  Hypothesis Hfam : family_refs s R.
 
   (* what the field-set walker does on a granular list without duplicates *)
   Lemma list_shape_distinct : forall tr sc t ma l,
@@ -78,23 +81,14 @@ Section Extract.
     assert (Hte : R (list_elem t)) by (eapply (so_list s R Hok); eauto; reflexivity).
     assert (Hiw : items_wf s t l) by (eapply items_wf_R; eauto).
     unfold fse in Hfse. unfold fsp. rewrite fs_paths_nil_eq, Hr, handle_vlist, Hat in *.
-    destruct (pass1_spec s t [] l [] [] [] false eq_refl eq_refl eq_refl eq_refl Hiw)
+    assert (Hrel : list_rel t = RAssociative).
+    { destruct (Hfam tr _ t Htr Hr eq_refl) as [H|H]; [exact H|]. rewrite H in Hat. discriminate. }
+    rewrite conforms_eq, Hr, Hrel in Hc.
+    apply andb_true_iff in Hc. destruct Hc as [Hc Hdist]. simpl in Hdist.
+    apply andb_true_iff in Hc. destruct Hc as [Hhas Hconf].
+    destruct (pass1_spec s t [] l [] [] [] false eq_refl eq_refl eq_refl eq_refl Hiw Hhas)
       as (d & new & Heq & Hsd & Hwd & Hmem & Hnew).
-    rewrite Heq in *. simpl in Hfse. simpl.
-    apply orb_false_iff in Hfse. destruct Hfse as [Hhas Hie]. apply negb_false_iff in Hhas.
-    rewrite conforms_eq, Hr in Hc.
-    assert (Hcd : forallb (fun x => conforms s (list_elem t) false x) l = true /\
-                  all_distinct (pes_of s t l) = true).
-    { destruct (list_rel t) eqn:Erel.
-      - apply andb_true_iff in Hc. destruct Hc as [Hc Hd]. apply andb_true_iff in Hc. tauto.
-      - discriminate.
-      - split; [exact Hc|]. destruct l as [|x l']; [reflexivity|]. simpl in Hhas.
-        unfold has_pe in Hhas at 1. unfold list_item_to_pe in Hhas. rewrite Erel in Hhas. discriminate.
-      - split; [exact Hc|]. destruct l as [|x l']; [reflexivity|]. simpl in Hhas.
-        unfold has_pe in Hhas at 1. unfold list_item_to_pe in Hhas. rewrite Erel in Hhas. discriminate.
-      - split; [exact Hc|]. destruct l as [|x l']; [reflexivity|]. simpl in Hhas.
-        unfold has_pe in Hhas at 1. unfold list_item_to_pe in Hhas. rewrite Erel in Hhas. discriminate. }
-    destruct Hcd as [Hconf Hdist].
+    rewrite Heq in *. simpl in Hfse. simpl. pose proof Hfse as Hie.
     assert (Hocc : forall e, wf_pe e = true -> (2 <=? List.length (occ s t e l)) = false).
     { intros e He. apply distinct_occ; auto. }
     assert (Hnew0 : new = []).
@@ -147,8 +141,8 @@ Section Extract.
         as (d & Hfsp & Hhas & _ & Hd & _ & Hiw & _).
       rewrite Hfsp. destruct l as [|x l']; [discriminate|].
       simpl in Hhas. apply andb_true_iff in Hhas. destruct Hhas as [Hx _]. unfold has_pe in Hx.
-      simpl. unfold item_paths at 1.
       destruct (list_item_to_pe s t x) as [e|] eqn:Ee; [|discriminate].
+      cbn [flat_map]. rewrite (item_paths_some s t d x e Ee).
       rewrite (Hd e (Hiw x e (or_introl eq_refl) Ee)).
       destruct (fsp s (list_elem t) x); discriminate.
     - destruct ma as [t|]; [|discriminate].
@@ -193,8 +187,8 @@ Section Extract.
       + right. split; [exact Hne|].
         destruct (list_shape_distinct tr sc t ma l Htr Er Eat Hwf Hc Hfse) as (d & Hfsp & _).
         rewrite Hfsp. intros q Hq. apply in_flat_map in Hq. destruct Hq as (x & _ & Hq).
-        unfold item_paths in Hq. destruct (list_item_to_pe s t x); [|contradiction].
-        destruct (pes_has p d); [contradiction|]. apply in_map_iff in Hq.
+        unfold item_paths in Hq. cbv zeta in Hq.
+        destruct (pes_has (list_item_pe_or_zero s t x) d); [contradiction|]. apply in_map_iff in Hq.
         destruct Hq as (q' & <- & _). discriminate.
     - destruct ma as [t|]; [|discriminate].
       destruct (rel_is_atomic (map_rel t)) eqn:Eat.
@@ -213,6 +207,7 @@ End Extract.
 Section ExtractMain.
   Variables (s : schema) (R : typeref -> Prop).
   Hypothesis Hok : schema_ok s R.
+  Hypothesis Hfam : family_refs s R.
 
   Lemma leaves_of_child : forall T L e X Y,
     leaves_of T L -> wf_pe e = true ->
@@ -243,7 +238,7 @@ Section ExtractMain.
       destruct (rel_is_atomic (list_rel t)) eqn:Eat; [reflexivity|].
       assert (Hgo : rm_list_go s true T t l = l).
       2:{ rewrite Hgo. destruct l; [contradiction|reflexivity]. }
-      destruct (list_shape_distinct s R Hok tr sc t ma l Htr Er Eat Hwf Hc Hfse)
+      destruct (list_shape_distinct s R Hok Hfam tr sc t ma l Htr Er Eat Hwf Hc Hfse)
         as (d & Hfsp & Hhas & Hie & Hd & Hocc & Hiw & Hconf).
       assert (Hte : R (list_elem t)) by (eapply (so_list s R Hok); eauto; reflexivity).
       apply rm_list_go_id. intros x rest Hx.
@@ -255,12 +250,11 @@ Section ExtractMain.
       { rewrite forallb_forall in Hconf. apply Hconf. exact Hx. }
       assert (Hpx : plain x = true) by (eapply plain_list_in; eauto).
       assert (Hfx : fse s (list_elem t) x = false).
-      { pose proof (existsb_false_in _ _ _ x Hie Hx) as H. unfold item_err in H.
-        rewrite Ee, (Hd e He) in H. exact H. }
+      { pose proof (existsb_false_in _ _ _ x Hie Hx) as H. rewrite (item_err_some s t d x e Ee), (Hd e He) in H. exact H. }
       assert (Hgrp : forall p, leafmem (fsp s tr (VList l)) (e :: p)
                                = leafmem (fsp s (list_elem t) x ++ [[]]) p).
       { rewrite Hfsp. apply (group_leafmem _ (item_paths s t d) l x e); auto.
-        - unfold item_paths. rewrite Ee, (Hd e He). reflexivity.
+        - rewrite (item_paths_some s t d x e Ee), (Hd e He). reflexivity.
         - intros i Hi. pose proof (Hhas i Hi) as Hie'. unfold has_pe in Hie'.
           destruct (list_item_to_pe s t i) as [ei|] eqn:Eei; [|discriminate].
           assert (Hei : wf_pe ei = true) by (apply (Hiw i ei Hi Eei)).
@@ -273,12 +267,13 @@ Section ExtractMain.
               rewrite (peeqb_sym ei e Hei He). exact Eeq. }
             rewrite (length_lt2_in _ _ _ Hxo (Hocc e He)) in Hio.
             destruct Hio as [Hio|[]]. auto.
-          + right. intros q Hq. unfold item_paths in Hq. rewrite Eei, (Hd ei Hei) in Hq.
+          + right. intros q Hq. rewrite (item_paths_some s t d i ei Eei), (Hd ei Hei) in Hq.
             apply in_map_iff in Hq. destruct Hq as (q' & <- & _). exists ei, q'. auto. }
       destruct (leaves_of_child T _ e _ [[]] Hlv He Hgrp) as [Hsub Hhase].
       { intros q [<-|[]]. reflexivity. }
-      unfold rm_list_step. rewrite Ee. cbn [rm_has rm_subset].
-      destruct (child_class s R Hok x (list_elem t) Hte Hwx Hcx Hpx Hfx) as [[Hleaf Hrm]|[Hgne Hgq]].
+      unfold rm_list_step. rewrite (list_item_pe_or_zero_some s t x e Ee). cbv zeta.
+      unfold rm_has, rm_subset.
+      destruct (child_class s R Hok Hfam x (list_elem t) Hte Hwx Hcx Hpx Hfx) as [[Hleaf Hrm]|[Hgne Hgq]].
       + (* leaf member *)
         rewrite Hleaf in Hhase, Hsub.
         assert (Hh : ps_has [e] T = true).
@@ -324,7 +319,7 @@ Section ExtractMain.
       destruct (leaves_of_child T _ (PEField k) _ (own0 t k c) Hlv eq_refl Hgrp) as [Hsub Hhase].
       { intros q Hq. eapply own0_in; eauto. }
       unfold rm_map_step. cbn [fst snd].
-      destruct (child_class s R Hok c (field_type t k) Hft Hwc Hcc Hpc Hfc) as [[Hleaf Hrm]|[Hgne Hgq]].
+      destruct (child_class s R Hok Hfam c (field_type t k) Hft Hwc Hcc Hpc Hfc) as [[Hleaf Hrm]|[Hgne Hgq]].
       + rewrite Hleaf in Hhase, Hsub.
         assert (Hh : ps_has [PEField k] T = true).
         { rewrite Hhase. apply (leafmem_nil_leaf (own0 t k c)). intros q Hq; eapply own0_in; eauto. }
